@@ -322,6 +322,69 @@ def write_work(chunk):
     return t
 
 
+def client_write_work(chunk):
+    """date-times handed to the client's statement requests (dtstart / dtend / dtasof of the five request kinds): the
+    composed request must carry the same instant; naive values are refused"""
+    import warnings
+
+    from ofxtools import Client as C
+
+    from vf import fakehttp as F
+    from vf.core import private_xdg
+
+    private_xdg()
+    DT, TM = lib_types()
+    t = Tally()
+    cl = C.OFXClient("http://x/ofx", userid="u", bankid="1", brokerid="b")
+
+    class Writer:
+        def __init__(self, kind, field):
+            self.kind, self.field = kind, field
+
+        def unconvert(self, v):
+            kw = {"acctid": "1", self.field: v}
+            if self.kind in ("StmtRq", "StmtEndRq"):
+                kw["accttype"] = "CHECKING"
+            with warnings.catch_warnings():
+                warnings.simplefilter("ignore")
+                body = cl.request_statements("pw", getattr(C, self.kind)(**kw), dryrun=True).read()
+            found = []
+
+            def walk(node):
+                if isinstance(node[1], str):
+                    if node[0] == self.field.upper():
+                        found.append(node[1])
+                else:
+                    for ch in node[1]:
+                        walk(ch)
+
+            walk(F.read_request(body)["sdoc"])
+            if len(found) != 1:
+                raise AssertionError(f"{self.field.upper()} occurs {len(found)} times in the request")
+            return found[0]
+
+        def convert(self, text):
+            return DT.convert(text)
+
+    slots = [("StmtRq", "dtstart"), ("StmtRq", "dtend"), ("CcStmtRq", "dtstart"), ("InvStmtRq", "dtasof"), ("InvStmtRq", "dtend"), ("StmtEndRq", "dtstart"), ("CcStmtEndRq", "dtend")]
+    for i, m in enumerate(chunk):
+        kind, field = slots[i % len(slots)]
+        w = Writer(kind, field)
+        for vi in (0, 1):
+            tz = mk_tz(m, vi)
+            check_write(t, w, TM, "datetime", datetime.datetime(2024, 2, 29, 19, 0, 0, 250400, tzinfo=tz), m)
+            check_write(t, w, TM, "datetime", datetime.datetime(1999, 12, 31, 23, 59, 59, 999600, tzinfo=tz), m)
+    for kind, field in slots:
+        t.count("evaluations")
+        try:
+            r = Writer(kind, field).unconvert(datetime.datetime(2024, 1, 1, 12, 0, 0))
+        except Exception:
+            t.outcome("naive-refused")
+            continue
+        t.fail(f"C09|naive|datetime|client-request-{field}|accepted", {"op": "naive", "kind": "datetime", "which": f"{kind}.{field}"}, repr(r))
+    return t
+
+
 class SeasonTZ(datetime.tzinfo):
     """a zone whose offset depends on the date (as zoneinfo/pytz/dateutil zones do): `winter` minutes from October to
     March, `summer` minutes from April to September; ONE instance is shared by all values written through it"""
@@ -434,6 +497,7 @@ def run(ctx):
             variants = [0, 1, 2, 3]
         wjobs.append((m, dts, variants))
     tally.merge(ctx.pmap(write_work, wjobs, chunk=8))
+    tally.merge(ctx.pmap(client_write_work, list(range(-720, 841, 15))))
     sjobs = []
     for (w, su, names) in ((-300, -240, ("EST", "EDT")), (0, 60, ("GMT", "BST")), (-30, 30, (None, None)), (330, 330, ("IST", "IST")), (-210, -150, ("NST", "NDT")), (600, 660, ("AEST", "AEDT"))):
         for order in (0, 1):
@@ -456,7 +520,7 @@ def run(ctx):
         ".mm/.00/none) x date core (10 boundary dates" + ("" if ctx.quick else " + 48 month edges of 2023/2024") + ") x 4 time/ms pairs x "
         "zone names rotating over {none,:EST,:Any Name}; plain notations x all dates x times x ms; the full and offset-without-ms notations for every quarter-hour offset x spelling through ofxget's --start/--end/--asof conversion; rejects: every single-field corruption "
         "(drop/add digit or letter at every digit position, field out of range, unclosed bracket) of "
-        f"{len(bases)} valid texts; write: every offset x boundary datetimes x 9 sub-ms parts x tzinfo variants, lexical rule + instant "
+        f"{len(bases)} valid texts; write: date-times of every quarter-hour zone through the date fields of the client's five statement request kinds (dry run, DTSTART/DTEND/DTASOF read back by the reference), naive ones refused there; every offset x boundary datetimes x 9 sub-ms parts x tzinfo variants, lexical rule + instant "
         "rounded to nearest ms + write-then-read within 500 us; 6 zones whose offset depends on the date, values on both sides of the change, in its last half millisecond, and in both passes of a repeated hour (fold) written through one shared tzinfo object in both orders; every case is a distinct text/value (all counted non-trivial)",
         "offsets": len(OFFSETS),
         "exhaustive": True,
